@@ -19,6 +19,27 @@ CHECKS = {
     "C19": dict(text="For each of the eight benchmark pairs and each n up to the bound, the real f is executed on a symbolic x, the resulting term is differentiated by rule and compared with the real f_grad for all x in the domain: an identity of normal forms (polynomial pairs, Rastrigin) or a z3 query with sin/cos/exp uninterpreted (Ackley, Griewank).",
                 note="Trusted: symx shim, the differentiation rules in symx/diff.py (cross-checked every run against a Richardson derivative of the real functions at the path witnesses), z3.",
                 tech="symbolic execution + term-level differentiation; normal-form identity / z3 QF_NRA with Ackermannised transcendental functions", ref="DESIGN.md C19"),
+    "C03": dict(text="Bounded symbolic model checking of the real main.py + scalar_function.py for one iteration under the full configuration lattice (maxiter, maxfun, maxls, ftol, ftarget, callback outcome; fresh start and arbitrary checkpoint) and two iterations with a lean line search, plus the REAL line_search inside the run: the oracle's objective values at x0, callback states and the result never increase; a failed line search leaves the iterate.",
+                note='Trusted: symx shim, the kernel contracts used as stubs (direction in the box and descent [C08/C09], line search returns None or an evaluated strictly better trial within its budget [C11]), z3. Decided modulo those contracts; scenarios of all counterexamples are replayed on the real public API over a battery of concrete problems.',
+                tech='DSE over the real orchestration code with contract stubs + uninterpreted objective; z3 per path', ref='DESIGN.md C03'),
+    "C04": dict(text='Same exploration; obligations on the returned object: documented message, each message true of the returned state (projected gradient, target, nit, nfev, callback), success iff not abnormal, nit/nfev budgets, callable ftarget/gtol invoked once. One step from an arbitrary coherent checkpoint makes the bookkeeping inductive.',
+                note='Trusted: symx shim, the kernel contracts used as stubs (direction in the box and descent [C08/C09], line search returns None or an evaluated strictly better trial within its budget [C11]), z3. Decided modulo those contracts; scenarios of all counterexamples are replayed on the real public API over a battery of concrete problems.',
+                tech='DSE over the real orchestration code with contract stubs; z3 per path; scenario replay', ref='DESIGN.md C04'),
+    "C05": dict(text="Same exploration; result.fun/jac (and every callback state's) are the uninterpreted objective/gradient at exactly result.x (Ackermann-consistent lookup, an unevaluated x fails), counters equal the number of oracle calls plus the checkpoint's.",
+                note='Trusted: symx shim, the kernel contracts used as stubs (direction in the box and descent [C08/C09], line search returns None or an evaluated strictly better trial within its budget [C11]), z3. Decided modulo those contracts; scenarios of all counterexamples are replayed on the real public API over a battery of concrete problems.',
+                tech='DSE with uninterpreted objective (Ackermann) over the real main.py/ScalarFunction; z3 per path', ref='DESIGN.md C05'),
+    "C06": dict(text='Relational bounded model checking: uninterrupted, stopped-at-k, no-op restart, restart to k+1 and to K (maxcor kept or reduced; chains in thorough) of the real main.py/initialize_X_and_G/update_lbfgs_matrices in one path context with functional stubs; pairs carried over, state handed to the next direction computation, next iterate and (when the split update was stored) the whole continuation are equal as terms.',
+                note='Trusted: symx shim, the kernel contracts used as stubs (direction in the box and descent [C08/C09], line search returns None or an evaluated strictly better trial within its budget [C11]), z3. Decided modulo those contracts; scenarios of all counterexamples are replayed on the real public API over a battery of concrete problems.',
+                tech='relational DSE, functional (Ackermann) kernel stubs, z3 equality of terms; scenario replay on the real API', ref='DESIGN.md C06'),
+    "C07": dict(text='Relational bounded model checking with a state-retaining callback: each retained state (inspected after the run, so in-place mutation shows) equals the result of maxiter=k, is unchanged after the callback returned, xk equals state.x, a callback returning False does not alter the run, and a restart from the retained object gives the uninterrupted continuation.',
+                note='Trusted: symx shim, the kernel contracts used as stubs (direction in the box and descent [C08/C09], line search returns None or an evaluated strictly better trial within its budget [C11]), z3. Decided modulo those contracts; scenarios of all counterexamples are replayed on the real public API over a battery of concrete problems.',
+                tech='relational DSE with mutation-faithful shim arrays; z3 equality of terms; scenario replay', ref='DESIGN.md C07'),
+    "C11": dict(text="Bounded symbolic model checking of the real line_search + max_allowed_steplength + SciPy's DCSRCH._iterate (tail cut to its postcondition; thorough also uncut) with an uninterpreted objective on the ray: evaluations within the cap, trial points in the box, returned step positive, feasible, evaluated and strictly downhill, no exception; T <= 2 (thorough 3-4) trials.",
+                note='Trusted: symx shim, z3. DCSRCH tail replaced by its postcondition (any next trial in [stpmin, stpmax], interval state havocked): a sound over-approximation of the trial sequence. Assumes feasible x0 and x0+d, descent direction.',
+                tech='DSE + uninterpreted objective (Ackermann) + z3 QF_LRA/NRA; replay on the real line_search with a Hermite interpolant of the model and a battery of ray functions', ref='DESIGN.md C11'),
+    "C18": dict(text="(i) in every explored orchestration run (fresh, restart, 1-2 iterations) the pairs of hess_inv are differences of a chronological chain of visited iterates and of the oracle gradients there, at most maxcor, s.y > 0; (ii) real extract_hess_inv_diag on SciPy's LbfgsInvHessProduct source equals diag(todense()) and the inverse-BFGS recursion for symbolic pairs (identity of normal forms).",
+                note='Trusted: symx shim, the kernel contracts used as stubs (direction in the box and descent [C08/C09], line search returns None or an evaluated strictly better trial within its budget [C11]), z3. Decided modulo those contracts; scenarios of all counterexamples are replayed on the real public API over a battery of concrete problems.',
+                tech='DSE; existence of a provenance chain decided by z3; normal-form identities for the diagonal utility', ref='DESIGN.md C18'),
 }
 
 
